@@ -178,9 +178,10 @@ func checkBlock(s *sink, h int64, prev, cur *stkview.View, ups []abci.ValidatorU
 			s.violate("positive-update-without-record", "", fmt.Sprintf("height %d: update power %d for a key without validator record in the previous block", h, u.Power))
 			continue
 		}
-		// several records may (wrongly) share a key: the update is fine if one of them justifies it
+		// several records may (wrongly) share a key: the update is fine if one of them justifies it;
+		// otherwise the record that comes closest is reported
+		var best *stkview.ValRec
 		var why []string
-		ok := false
 		for _, r := range cands {
 			var bad []string
 			if r.Staking.Cmp(minLo) < 0 {
@@ -195,19 +196,17 @@ func checkBlock(s *sink, h int64, prev, cur *stkview.View, ups []abci.ValidatorU
 			if big.NewInt(u.Power).Cmp(r.Staking) != 0 {
 				bad = append(bad, "power-differs-from-stake")
 			}
-			if len(bad) == 0 {
-				ok = true
-				issued[r.Addr] = r
-				break
+			if best == nil || len(bad) < len(why) {
+				best, why = r, bad
 			}
-			why = bad
 		}
-		if !ok {
-			r := cands[0]
-			for _, w := range why {
-				s.violateAbout(r.Addr, "positive-update-"+w, "", fmt.Sprintf("height %d: update power %d for %s; previous record: stake %s power %d frozen %v; minimum %s",
-					h, u.Power, r.Addr, r.Staking, r.Power, prev.IsFrozen(r.Addr), minLo))
-			}
+		if len(why) == 0 {
+			issued[best.Addr] = best
+			continue
+		}
+		for _, w := range why {
+			s.violateAbout(best.Addr, "positive-update-"+w, "", fmt.Sprintf("height %d: update power %d for %s; previous record: stake %s power %d frozen %v; minimum %s",
+				h, u.Power, best.Addr, best.Staking, best.Power, prev.IsFrozen(best.Addr), minLo))
 		}
 	}
 	if int64(pos) > topHi {
